@@ -10,7 +10,7 @@ import (
 
 func init() {
 	Register(&Prop{
-		ID: "C04", Bubble: false, ArmLockProbes: true, Run: runC04, QuickRuns: 2500,
+		ID: "C04", Bubble: false, ArmLockProbes: true, Run: runC04, QuickRuns: 5000,
 		Rule: "one run = one valid configuration of AIMD / Vegas / Gradient / Gradient2 (bare or wrapped by windowed / traced limits) fed 20..300 samples from a seeded backend model perturbed by fault segments (rtt=0 stalls, huge rtts, decreasing rtts, drop bursts, idle, edge in-flight values, clock jumps); " +
 			"oracle after every sample: no panic, min <= EstimatedLimit() <= max(configured max, initial) (AIMD: >= 1 and at most +increment per sample); " +
 			"non-trivial = the history contained at least one fault segment and the estimate changed at least once; distinct = distinct choice tapes",
@@ -21,7 +21,7 @@ func init() {
 			"valid-configuration domain as in DESIGN.md §3 C04 (min<=initial, min<=max, smoothing in (0,1], queue allowance <= max and <= initial, window >= 100 ms, window size >= 10)"},
 	})
 	Register(&Prop{
-		ID: "C06", Bubble: true, ArmLockProbes: true, Run: runC06, QuickRuns: 2500,
+		ID: "C06", Bubble: true, ArmLockProbes: true, Run: runC06, QuickRuns: 5000,
 		ExpectedProbes: []string{"floor_reached", "concurrent_aimd_checked"},
 		Rule: "one run = AIMD / Vegas / Gradient in a state reached by a seeded prefix history (0..300 samples incl. faults), then (i) every drop sample of the whole history is checked for 'never raises' (AIMD: exact back-off value by rational arithmetic for dyadic ratios), (ii) a sustained run of drop samples with constant rtt (0, 1, baseline, multiples, 2^40) must reach the floor within a configuration-derived number of samples; " +
 			"non-trivial = the prefix changed the estimate and the sustained run had to move the estimate; distinct = distinct choice tapes",
@@ -31,7 +31,7 @@ func init() {
 		Assumptions: []string{"Vegas probe multiplier >= 4 in this check; bounds are deliberately generous (DESIGN.md §3 C06)"},
 	})
 	Register(&Prop{
-		ID: "C07", Bubble: true, ArmLockProbes: true, Run: runC07, QuickRuns: 2500,
+		ID: "C07", Bubble: true, ArmLockProbes: true, Run: runC07, QuickRuns: 4000,
 		ExpectedProbes: []string{"app_limited_sample_checked", "gradient_probe_during_healthy_run", "concurrent_aimd_checked"},
 		Rule: "one run = AIMD / Vegas / Gradient / Gradient2 in a state reached by a seeded prefix history (incl. drops and zero RTTs); (a) every non-drop sample with in-flight below half the estimate (below the estimate for AIMD) must not raise it; (b) a healthy run (no drops, in-flight >= 2 x ceiling, constant rtt not above the baseline) must raise the estimate again and bring it within one of the ceiling within a configuration-derived number of samples (AIMD +increment per sample; Gradient >= queue allowance per non-probe sample); " +
 			"non-trivial = at least one app-limited sample was checked and the healthy run started below the ceiling; distinct = distinct choice tapes",
